@@ -390,3 +390,22 @@ prop(
     ],
     assumptions=["os.OpenFile / File.Write / File.Sync / os.Rename may each fail or succeed arbitrarily (callee clauses: pure on the modelled state)", "strings.IndexByte / LastIndexByte lib contracts"],
 )
+
+prop(
+    "C03",
+    level="other",
+    design_ref="DESIGN.md section 3, C03",
+    groups=[(["./plugin/input/file", "./pipeline"], r"^(\(\*Plugin\)\.PassEvent|\(\*jobProvider\)\.(commit|truncateJob|initJobOffset)|\(\*worker\)\.(processEOF|work))$")],
+    claim=(
+        "The sequential facts the kill-and-restart argument rests on, each a proved contract: on resume an event is dropped as already delivered only if its stream has a saved offset and the event's offset is not beyond it (PassEvent); "
+        "commit stores the event's own offset, under the job lock, strictly larger than the stream's previous offset, and only for regular / split-parent events newer than the last truncation; "
+        "the resume position is never beyond a saved stream offset the scan has seen (minimum), and is 0 without saved offsets; truncation is detected exactly when the read position is beyond the file size, "
+        "and truncateJob makes every earlier event ignorable, rewinds to 0 and resets every stream offset; the worker keeps curOffset equal to the descriptor position and holds back the unterminated tail (C06 contract)."
+    ),
+    undecided=[
+        "the quantifier over kill instants and the two-run composition (disk state = some earlier committed snapshot, C07; delivered before committed, C01/C02) is a paper argument in DESIGN.md, not machine-checked",
+        "rotation by rename, inode reuse, files discovered after start (addJob), symlink handling",
+        "that the min-offset scan visits every saved stream (Go map iteration is not modelled)",
+    ],
+    assumptions=["SliceMap.Get/Set, os.File.Stat/Seek behave as their callee clauses", "initJobOffset runs on a job that is not published yet (exclusive access stands for the job lock)"],
+)
